@@ -370,6 +370,148 @@ func TestConcurrent(t *testing.T) {
 	})
 }
 
+
+// ---------------------------------------------------------------- overlapping calls (harness-owned schedule)
+
+type heldCall struct {
+	id      int
+	release chan byte
+	done    chan error
+	res     []interface{}
+}
+
+// TestOverlap holds forwarded calls in flight and decides itself when and how each one
+// completes, so overlapping calls have a known linearisation: a call is judged at its
+// start against the failures/successes that have *completed* so far.
+func TestOverlap(t *testing.T) {
+	ev.Steps(40)
+	ev.Check(t, "overlap", ev.N(1500, 40000), func(rt *rapid.T) {
+		thr := rapid.Uint64Range(0, 4).Draw(rt, "threshold")
+		mock := rapid.Bool().Draw(rt, "mock")
+		opts := []circuitbreaker.Option{circuitbreaker.WithThreshold(thr), circuitbreaker.WithRecoverTime(24 * time.Hour)}
+		if mock {
+			opts = append(opts, circuitbreaker.WithMockService(func(ctx context.Context, name string, args []interface{}) ([]interface{}, error) {
+				return []interface{}{"mock:" + name}, nil
+			}))
+		}
+		cb := circuitbreaker.New(opts...)
+		client := core.NewClient("mock://c20o")
+		client.Timeout = 0
+		client.Use(cb)
+		entered := make(chan *heldCall, 1)
+		var curMu sync.Mutex
+		var cur *heldCall
+		client.Use(func(ctx context.Context, request []byte, next core.NextIOHandler) ([]byte, error) {
+			curMu.Lock()
+			c := cur
+			curMu.Unlock()
+			entered <- c
+			switch <-c.release {
+			case 'o':
+				return []byte(fmt.Sprintf("Ri%d;z", c.id)), nil
+			case 'e':
+				return nil, fmt.Errorf("down-error-%d", c.id)
+			default:
+				panic(fmt.Sprintf("down-panic-%d", c.id))
+			}
+		})
+		var open []*heldCall
+		var trace []string
+		var fails uint64
+		overlapped, crossed := false, false
+		next := 0
+		desc := func() string { return fmt.Sprintf("thr=%d mock=%v trace=%s", thr, mock, strings.Join(trace, ",")) }
+		fail := func(msg string) {
+			for _, c := range open {
+				c.release <- 'o'
+				<-c.done
+			}
+			open = nil
+			ev.S.Violation("overlap", "TestOverlap", desc(), msg, nil)
+			rt.Fatalf("%s: %s", desc(), msg)
+		}
+		rt.Repeat(map[string]func(*rapid.T){
+			"start": func(rt *rapid.T) {
+				if len(open) >= 6 {
+					rt.Skip("enough in flight")
+				}
+				c := &heldCall{id: next, release: make(chan byte, 1), done: make(chan error, 1)}
+				next++
+				curMu.Lock()
+				cur = c
+				curMu.Unlock()
+				go func() {
+					res, err := client.Invoke("fn", nil)
+					c.res = res
+					c.done <- err
+				}()
+				wantReject := fails > thr
+				select {
+				case <-entered:
+					trace = append(trace, fmt.Sprintf("start%d->forwarded", c.id))
+					open = append(open, c)
+					if len(open) > 1 {
+						overlapped = true
+					}
+					if wantReject {
+						fail(fmt.Sprintf("call %d forwarded while it should be open (%d consecutive completed failures)", c.id, fails))
+					}
+				case err := <-c.done:
+					trace = append(trace, fmt.Sprintf("start%d->rejected", c.id))
+					crossed = true
+					if !wantReject {
+						fail(fmt.Sprintf("call %d rejected (err=%v res=%v) while it should be closed (%d consecutive completed failures)", c.id, err, c.res, fails))
+					}
+					if mock {
+						if err != nil || len(c.res) != 1 || c.res[0] != "mock:fn" {
+							fail(fmt.Sprintf("rejected call %d not served by the mock: res=%v err=%v", c.id, c.res, err))
+						}
+					} else if !errors.Is(err, circuitbreaker.ErrBreaker) {
+						fail(fmt.Sprintf("rejected call %d returned %v instead of the break error", c.id, err))
+					}
+				case <-time.After(20 * time.Second):
+					fail(fmt.Sprintf("call %d neither returned nor reached the downstream handler", c.id))
+				}
+			},
+			"finish": func(rt *rapid.T) {
+				if len(open) == 0 {
+					rt.Skip("nothing in flight")
+				}
+				k := rapid.IntRange(0, len(open)-1).Draw(rt, "which")
+				o := rapid.SampledFrom([]byte{'o', 'e', 'e', 'p'}).Draw(rt, "outcome")
+				c := open[k]
+				open = append(open[:k], open[k+1:]...)
+				c.release <- o
+				var err error
+				select {
+				case err = <-c.done:
+				case <-time.After(20 * time.Second):
+					fail(fmt.Sprintf("call %d did not return after the downstream answered", c.id))
+				}
+				trace = append(trace, fmt.Sprintf("finish%d(%c)", c.id, o))
+				switch o {
+				case 'o':
+					fails = 0
+					if err != nil || len(c.res) != 1 || fmt.Sprint(c.res[0]) != fmt.Sprint(c.id) {
+						fail(fmt.Sprintf("call %d: forwarded success not returned: res=%v err=%v", c.id, c.res, err))
+					}
+				default:
+					fails++
+					if err == nil || !strings.Contains(err.Error(), fmt.Sprintf("-%d", c.id)) {
+						fail(fmt.Sprintf("call %d: forwarded failure not returned: err=%v", c.id, err))
+					}
+				}
+			},
+		})
+		for _, c := range open {
+			c.release <- 'o'
+			<-c.done
+		}
+		ev.S.Begin("overlap", desc())
+		ev.S.Case("overlap", desc(), overlapped && crossed, "overlap")
+	})
+}
+
 // TestReplay re-executes one explicit case from a replay file (no generator involved).
 func TestReplay(t *testing.T) {
 	var c Case
